@@ -331,7 +331,12 @@ func c14Apply(p *types.Project, op c14Op) (res *types.Project, vis *c14Visited, 
 	case "Copy":
 		return types.VerifDeepCopy(p), nil, nil
 	case "WithProfiles":
-		res, err = p.WithProfiles(append([]string{}, op.Names...))
+		if op.Opt == "self" {
+			// the caller hands the receiver's own slice
+			res, err = p.WithProfiles(p.Profiles)
+		} else {
+			res, err = p.WithProfiles(append([]string{}, op.Names...))
+		}
 	case "WithServicesEnabled":
 		res, err = p.WithServicesEnabled(op.Names...)
 	case "WithServicesDisabled":
@@ -1069,6 +1074,7 @@ var c14OpPool = []c14Op{
 	{Op: "WithProfiles", Names: []string{"p1"}},
 	{Op: "WithProfiles", Names: []string{"*"}},
 	{Op: "WithProfiles", Names: []string{"p2", "data"}},
+	{Op: "WithProfiles", Opt: "self"},
 	{Op: "WithServicesEnabled", Names: []string{"%0"}},
 	{Op: "WithServicesEnabled", Names: []string{"@0", "%1", "ghost"}},
 	{Op: "WithServicesEnabled"},
@@ -1124,6 +1130,13 @@ func runC14(ctx *core.Ctx) {
 		for _, op := range c14OpPool {
 			ctx.Count("history-1-exhaustive")
 			ctx.Add("c14.spec", c14HistArgs{Proj: b, Ops: []c14Op{op}, Spec: true})
+		}
+	}
+	// every derivation that has a heap program, on every base: real method vs program on the encoded memory graph
+	for _, b := range bases {
+		for _, op := range c14DerivOps() {
+			ctx.Count("deriv-exhaustive")
+			ctx.Add("c14.deriv", c14DerivArgs{Proj: b, Op: op})
 		}
 	}
 	// every pair of operations on the first two bases
@@ -1188,6 +1201,31 @@ func runC14(ctx *core.Ctx) {
 		} else {
 			ctx.Add("c14.history", c14HistArgs{Proj: pr, Ops: ops})
 		}
+	}
+	dops := c14DerivOps()
+	for i := 0; i < ctx.Pick(500, 15000); i++ {
+		var pr c14Proj
+		switch r := ctx.Rng.Intn(10); {
+		case r < 6:
+			pr = c14Proj{Mode: "sparse", Seed: ctx.Rng.Int63n(1 << 40)}
+		case r < 8:
+			pr = c14Proj{Mode: "full", Size: 1 + ctx.Rng.Intn(2), Seed: ctx.Rng.Int63n(1 << 40)}
+		default:
+			ys := []string{"anchors", "deps", "minimal"}
+			pr = c14Proj{Mode: "loaded", Yaml: ys[ctx.Rng.Intn(len(ys))]}
+		}
+		op := dops[ctx.Rng.Intn(len(dops))]
+		if ctx.Rng.Intn(2) == 0 && len(op.Names) > 0 {
+			pool := []string{"@0", "@1", "@2", "@3", "%0", "%1", "ghost", "p1", "p2", "*", "data"}
+			k := 1 + ctx.Rng.Intn(3)
+			nm := make([]string, k)
+			for x := range nm {
+				nm[x] = pool[ctx.Rng.Intn(len(pool))]
+			}
+			op.Names = nm
+		}
+		ctx.Count("deriv-random-" + pr.Mode)
+		ctx.Add("c14.deriv", c14DerivArgs{Proj: pr, Op: op})
 	}
 	_ = context.Background
 }
